@@ -9,6 +9,11 @@ TEXT = {
  'C05': ('Bounded symbolic model checking of the real decoder (IR-derived C, CBMC/SAT): every primitive from an arbitrary I_dec state on arbitrary remaining input of bounded length, at hooked window sizes; End-of-input must be thrown exactly when the input is a truncated prefix.', '4 C05, 3.2, 3.6'),
  'C06': ('Bounded symbolic model checking of the real encoder: one inductive step per public write operation from an arbitrary buffer state (symbolic fill level/contents/argument) against a reference RFC 8949 encoder; sequences of any length follow from the step.', '4 C06, 3.2'),
  'C07': ('Bounded symbolic model checking of the real decoder against a reference RFC 8949 parser, all head widths and window offsets; skip_item verified body-wise against the contract of its recursive call.', '4 C07, 3.3'),
+ 'C01': ('Compositional bounded model checking: L1 bytes<->items is C06/C07; here L2: every block-level structure\'s write() equals an independently written RFC 8618 reference encoding and read() of the reference encoding returns the value (all presence subsets, full-width integers, symbolic member order). Block/table composition: see notes.', '4 C01, 3.5'),
+ 'C02': ('Bounded model checking of every *::write against an item acceptor: exactly one well-formed item per call, declared length == members present, every key followed by a value, including structures with no member set.', '4 C02, 3.5'),
+ 'C08': ('Bounded model checking of every map reader on the reference encoding with a symbolic permutation of the members, definite/indefinite form and unknown members with opaque values.', '4 C08, 3.5'),
+ 'C09': ('Bounded model checking of the preamble structures: write() == RFC 8618 reference encoding, read(reference) == value member for member including presence and list order.', '4 C09, 3.5'),
+ 'C10': ('Bounded model checking: encoder operations return the bytes appended (L1); with an arbitrary positive size per encoder call every *::write returns exactly the sum (L2).', '4 C10'),
  'C03': ('Bounded symbolic model checking of every read-side unit that touches untrusted bytes (decoder primitives on arbitrary input, renderers on arbitrary strings) plus an SMT verdict over all 64-bit values for the time-offset arithmetic; memory safety = CBMC pointer/bounds checks inside the real code.', '4 C03'),
  'C11': ('Solver verdict for all values of each table key type (hash/equality agreement, two symbolic values) and bounded model checking of whole BlockTable histories (<= 3 symbolic additions + queries).', '4 C11'),
  'C13': ('Bounded model checking of rotation at the writer and encoder layers: a rotation that returns normally has closed the old output; all buffered bytes reach the old sink first. Exporter-level rotation histories: see notes.', '4 C13'),
